@@ -9,6 +9,7 @@ import (
 	"io"
 	"sort"
 	"strings"
+	"sync/atomic"
 	"time"
 
 	imap "github.com/emersion/go-imap/v2"
@@ -184,6 +185,8 @@ func printDelivered(f *flat, p string, item imapclient.FetchItemData) {
 		if err != nil {
 			f.s(p+".literal.error", err.Error())
 		}
+		atomic.AddInt64(&litCount, 1)
+		atomic.AddInt64(&litBytes, int64(len(b)))
 		if int64(len(b)) != lit.Size() {
 			f.s(p+".literal.size-mismatch", fmt.Sprintf("Size()=%d read=%d", lit.Size(), len(b)))
 		}
@@ -226,6 +229,9 @@ func printDelivered(f *flat, p string, item imapclient.FetchItemData) {
 	}
 }
 
+// non-vacuity counters
+var litCount, litBytes, msgCount, uniCount int64
+
 type gotMsg struct {
 	seq uint32
 	f   []kv
@@ -244,6 +250,7 @@ func drainMessage(msg *imapclient.FetchMessageData) gotMsg {
 		k++
 	}
 	f.n("items", k)
+	atomic.AddInt64(&msgCount, 1)
 	return gotMsg{msg.SeqNum, f.l}
 }
 
@@ -500,19 +507,22 @@ func execFetch(cn *conn, cases []*fetchCase) []outcome {
 		if writeErr != nil {
 			extra["writer_error"] = writeErr.Error()
 		}
+		if canonChanges(items[i], extended) {
+			cn.markNontrivial(exp)
+		}
 		switch {
 		case cmdErr != nil && i == len(got)-1:
 			// the last message that was handed over before the command failed: either it is
 			// complete (the failure belongs to the next one) or it is the victim
-			outs[i] = compare("fetch", exp, got[i], nil, extra)
+			outs[i] = cn.compare("fetch", exp, got[i], nil, extra)
 			if !outs[i].OK || i == len(cases)-1 {
 				extra["delivered_before_failure"] = kvString(got[i])
-				outs[i] = compare("fetch", exp, nil, cmdErr, extra)
+				outs[i] = cn.compare("fetch", exp, nil, cmdErr, extra)
 			}
 		case i < len(got):
-			outs[i] = compare("fetch", exp, got[i], nil, extra)
+			outs[i] = cn.compare("fetch", exp, got[i], nil, extra)
 		case cmdErr != nil && i == len(got) && (i == 0 || outs[i-1].OK):
-			outs[i] = compare("fetch", exp, nil, cmdErr, extra)
+			outs[i] = cn.compare("fetch", exp, nil, cmdErr, extra)
 		case cmdErr != nil:
 			outs[i] = outcome{NotRun: true, Key: "fetch:not-run"}
 		default:
@@ -537,6 +547,27 @@ func execFetch(cn *conn, cases []*fetchCase) []outcome {
 		cn.kill()
 	}
 	return outs
+}
+
+// canonChanges: does a protocol canonicalisation change what the backend supplied?
+func canonChanges(items []fitem, extended bool) bool {
+	for _, it := range items {
+		var a, b flat
+		switch it.kind {
+		case kEnv:
+			printEnvelope(&a, "", it.env)
+			printEnvelope(&b, "", wireEnvelope(it.env))
+		case kBS:
+			printBS(&a, "", it.bs)
+			printBS(&b, "", wireBS(it.bs, extended))
+		default:
+			continue
+		}
+		if _, _, _, same := firstDiff(a.l, b.l); !same {
+			return true
+		}
+	}
+	return false
 }
 
 // setupFailed: the benign SELECT that precedes a selected-state command did not come through.
